@@ -209,6 +209,11 @@ func Open(ctx context.Context, S3 S3Interface, cfg Config, opts OpenOptions, whe
 		if err != nil {
 			return nil, err
 		}
+		// A listed version may be retired (copied to merged/, deleted from
+		// current/) by a concurrent commit before it is fetched; its
+		// successor is not in our listing, so read it from merged/ rather
+		// than dropping its contents from this view.
+		persists = []mast.Persist{rootPersist, mergedPersist}
 		skipUnreadable = true
 	}
 	tree, mergedRoots, unmergeableRoots, err = mergeRoots(ctx, versionsToLoad, cfg, crdtConfig, persists, when, opts.ForceRebranch, &kvVersion, skipUnreadable)
